@@ -61,6 +61,7 @@ fn main() {
     let t0 = std::time::Instant::now();
     let report: Report = match prop.as_str() {
         "C06" => mon::c06::run(&p),
+        "C10" => mon::c10::run(&p),
         "C11" => mon::c11::run(&p),
         _ => {
             eprintln!("unknown property {}", prop);
